@@ -268,7 +268,13 @@ class Lits(object):
             out = []
             for st in b["stmts"]:
                 assert st[0] == "expr", "dynamic blocks hold expression statements only"
-                out.append(self.expr(st[1]))
+                if st[1][0] == "dynref":
+                    # a bare reference to another dynamic block as a statement of this one: that block's statements in place
+                    out.append(("NESTED", self.dyn_block(st[1][1], st[1][2])))
+                else:
+                    out.append(self.expr(st[1]))
+            if any(isinstance(x, tuple) for x in out):
+                return "(" + " ++ ".join(x[1] if isinstance(x, tuple) else "[%s]" % x for x in out) + ")"
             return clist(out)
         finally:
             self.prefix = old
